@@ -525,6 +525,22 @@ threads=1
 	}
 	wg.Wait()
 	time.Sleep(300 * time.Millisecond)
+	if obs.ReturnedT >= 0 && obs.ReturnedT-obs.TriggerT < int64(scn.GraceMs)-150 {
+		// a drained return: every connection has been closed by the server; give the client readers up to 3 s more to
+		// see their EOF (they only need to be scheduled)
+		dl := time.After(2700 * time.Millisecond)
+	waitReaders:
+		for i := range scn.Conns {
+			if scn.Conns[i].ReadDelayMs < 0 {
+				continue
+			}
+			select {
+			case <-rdone[i]:
+			case <-dl:
+				break waitReaders
+			}
+		}
+	}
 	if sn, ok := snapshot(); ok {
 		for i := range scn.Conns {
 			if v, in := sn.Conns[keys[i]]; in {
